@@ -172,6 +172,8 @@ def run_unit(unit):
                 if depth:
                     ex = Explorer(net, lambda n, s: full_ops(n, s), None, config=CONFIG, max_states=200 if depth < 2 else 60)
                     prefixes = ex.run(depth=depth)
+                    if ex.capped:
+                        res["caps"].append({"net": repr(net)[:80], "cap": "max_states"})
                     res["states"] += len(ex.states)
                     res["transitions"] += ex.transitions
                     # an earlier control query on the same diagram is a prior state too (it expands towards another target
